@@ -12,6 +12,7 @@ import (
 
 type rscen struct {
 	Pacer   string `json:"pacer"`
+	Lower   bool   `json:"lower_rate_while_draining,omitempty"`
 	SetRate bool   `json:"set_rate_thread"`
 	Horizon int    `json:"horizon"`
 	Bound   int    `json:"deviation_bound"`
@@ -21,7 +22,73 @@ func (c rscen) name() string { b, _ := json.Marshal(c); return string(b) }
 
 // rbody: two writers on the SAME stream (two packets each) race the pacer goroutine, timer firings and
 // optionally a rate change. Afterwards the queue is drained deterministically.
+// lowerBody: five 1000-byte packets are queued at 10 Mbit/s (burst 50000 bits holds them all); a thread
+// lowers the rate to 1 Mbit/s (burst 12000) while the pacer goroutine drains. From the instant SetRate has
+// returned, no more than the new burst plus new rate x elapsed may be released.
+func lowerBody(c rscen, ctx *hk.Ctx) {
+	sys, err := newSystem(config{Pacer: c.Pacer, Interval: 5, Rate: 10_000_000})
+	if err != nil {
+		ctx.Fail("C17:setup", "%v", err)
+		return
+	}
+	for n := 0; n < 5; n++ {
+		h := rtp.Header{Version: 2, PayloadType: 96, SequenceNumber: uint16(n + 1), SSRC: ssrc(1)}
+		if _, err := sys.api.write(1, &h, make([]byte, 988)); err != nil {
+			ctx.Fail("C17:setup", "write: %v", err)
+			return
+		}
+	}
+	setSeq, setAt := -1, int64(0)
+	t := vsched.GoApp("setrate", func() {
+		sys.api.setRate(1_000_000)
+		setSeq, setAt = sys.t.SeqNow(), vsched.NowNanos()
+	})
+	t.Join()
+	for k := 0; k < 30 && len(sys.t.RTP) < 5; k++ {
+		vsched.Advance(5 * time.Millisecond)
+	}
+	_ = sys.api.close()
+	vsched.Quiesce()
+	vsched.AcquireFinished()
+	cum, worst, worstAllow, worstCum := 0.0, 0.0, 0.0, 0.0
+	var worstAt int64
+	after := 0
+	for _, r := range sys.t.RTP {
+		if r.Seq <= setSeq {
+			continue
+		}
+		after++
+		cum += float64(8 * (r.Header.MarshalSize() + len(r.Payload)))
+		allow := 12000 + 1_000_000*float64(r.At-setAt)/1e9
+		if cum-allow > worst {
+			worst, worstAllow, worstCum, worstAt = cum-allow, allow, cum, r.At
+		}
+	}
+	if worst > 1 {
+		var tl []string
+		for _, q := range sys.t.RTP {
+			tl = append(tl, fmt.Sprintf("#%d@+%dus", q.Seq, (q.At-sys.t0)/1000))
+		}
+		over := "by-more-than-one-packet"
+		if worst <= 12000 {
+			over = "by-at-most-one-packet"
+		}
+		ctx.Fail("C17:rate-exceeded:"+over, "after SetRate(1 Mbit/s) had returned (at +%dus, transport mark #%d), %.0f bits were released within %d us; the allowance is burst 12000 + rate x time = %.0f; deliveries %v",
+			(setAt-sys.t0)/1000, setSeq, worstCum, (worstAt-setAt)/1000, worstAllow, tl)
+		return
+	}
+	if len(sys.t.RTP) != 5 {
+		ctx.Fail("C17:accepted-packet-never-delivered:"+c.Pacer, "%d of 5 accepted packets delivered", len(sys.t.RTP))
+		return
+	}
+	ctx.Outcome("released-after-setrate=%d", after)
+}
+
 func rbody(c rscen, ctx *hk.Ctx) {
+	if c.Lower {
+		lowerBody(c, ctx)
+		return
+	}
 	sys, err := newSystem(config{Pacer: c.Pacer, Interval: 5, Rate: 1_000_000})
 	if err != nil {
 		ctx.Fail("C17:setup", "%v", err)
@@ -108,6 +175,7 @@ func rscenarios(tier string) []rscen {
 			out = append(out, rscen{Pacer: p, SetRate: sr, Horizon: 2, Bound: b})
 		}
 	}
+	out = append(out, rscen{Pacer: "token-bucket", Lower: true, Horizon: 2, Bound: b + 1})
 	return out
 }
 
